@@ -249,7 +249,11 @@ ReadStep0(r, l0) ==
               ELSE AddLine([r EXCEPT !.zone = l.n, !.region = 0], LineObj(i, l, TRUE, muted, l.n, r.file, 0))
         [] OTHER -> AddLine(r, LineObj(i, l, TRUE, muted, r.zone, r.file, r.region))
 
-ReadStep(r, l) == [ReadStep0(r, l) EXCEPT !.pc = r.pc + 1]
+\* lzone / lorgz / lorg: a zone selection or origin with a (never referenced, uniquely named) label written in front of it on the
+\* same source line.  The label opens a region that the directive closes again: the line does exactly what the directive does.
+Undecorated(l) == CASE l.k = "lzone" -> [l EXCEPT !.k = "zone"] [] l.k = "lorgz" -> [l EXCEPT !.k = "orgz"]
+                    [] l.k = "lorg" -> [l EXCEPT !.k = "org"] [] OTHER -> l
+ReadStep(r, l) == [ReadStep0(r, Undecorated(l)) EXCEPT !.pc = r.pc + 1]
 
 RECURSIVE ReadAll(_, _, _)
 ReadAll(r, p, j) == IF j > Len(p) \/ r.status # "run" THEN r ELSE ReadAll(ReadStep(r, p[j]), p, j + 1)
